@@ -590,6 +590,25 @@ func extSelectedByOption(v ssa.Value, comp, uncomp string) (bool, string) {
 					walk(st.Val, d+1)
 				}
 			}
+		case *ssa.Call:
+			// the extension chosen by a (new) helper: each of its returns is a definition point
+			h := x.Call.StaticCallee()
+			if h == nil || !newHelpers[h] || h.Blocks == nil {
+				okShape = false
+				return
+			}
+			for _, hb := range h.Blocks {
+				ret, ok := hb.Instrs[len(hb.Instrs)-1].(*ssa.Return)
+				if !ok || len(ret.Results) == 0 {
+					continue
+				}
+				rv := unspill(ret, ret.Results[0])
+				if kc, ok := rv.(*ssa.Const); ok && kc.Value != nil {
+					defs = append(defs, defPoint{kc.Value.ExactString(), h, hb, nil})
+				} else {
+					walk(rv, d+1)
+				}
+			}
 		case *ssa.Parameter:
 			as := boundArgs(x)
 			if len(as) == 0 {
